@@ -10,6 +10,7 @@ use crate::wl;
 use serde::{Deserialize, Serialize};
 use std::collections::BTreeMap;
 use unicode_width::UnicodeWidthChar;
+use validator::Validate as _;
 
 #[derive(Clone, Copy, Debug, Serialize, Deserialize, PartialEq, Eq)]
 pub enum RTarget {
@@ -22,6 +23,10 @@ pub enum RTarget {
     /// enum E { Alpha, Beta } inside a map value: BTreeMap<String, E>
     MapEnum,
     Json,
+    /// garde-validated map of items (validation paths reflect map keys of the input)
+    GardeMap,
+    /// validator-validated list of items
+    ValidatorList,
 }
 
 #[derive(Clone, Debug, Serialize, Deserialize)]
@@ -59,6 +64,32 @@ struct Strict {
     k7: i32,
 }
 
+#[derive(Debug, Deserialize, garde::Validate, validator::Validate)]
+#[allow(dead_code)]
+struct VItem {
+    #[garde(range(max = 10))]
+    #[validate(range(max = 10))]
+    n: i32,
+    #[garde(length(max = 6))]
+    #[validate(length(max = 6))]
+    #[serde(default)]
+    s: String,
+}
+
+#[derive(Debug, Deserialize, garde::Validate)]
+#[allow(dead_code)]
+struct GardeMapDoc {
+    #[garde(dive)]
+    m: BTreeMap<String, VItem>,
+}
+
+#[derive(Debug, Deserialize, validator::Validate)]
+#[allow(dead_code)]
+struct ValidatorListDoc {
+    #[validate(nested)]
+    items: Vec<VItem>,
+}
+
 #[derive(Debug, Deserialize)]
 #[allow(dead_code)]
 enum E {
@@ -66,7 +97,12 @@ enum E {
     Beta,
 }
 
+thread_local! {
+    static LAST_READER: std::cell::RefCell<Option<SimReader>> = const { std::cell::RefCell::new(None) };
+}
+
 fn parse(c: &RenderCase) -> Option<Result<(), serde_saphyr::Error>> {
+    LAST_READER.with(|l| *l.borrow_mut() = None);
     #[allow(deprecated)]
     let opts = serde_saphyr::options! { crop_radius: c.radius, with_snippet: c.with_snippet };
     macro_rules! go {
@@ -85,12 +121,43 @@ fn parse(c: &RenderCase) -> Option<Result<(), serde_saphyr::Error>> {
                             ..Default::default()
                         },
                     );
+                    LAST_READER.with(|l| *l.borrow_mut() = Some(rd.clone()));
                     guard(|| serde_saphyr::from_reader_with_options::<_, $t>(rd, opts).map(|_| ())).ok()
                 }
             }
         };
     }
+    if matches!(c.target, RTarget::GardeMap | RTarget::ValidatorList) {
+        // validating entry points exist for string and reader input
+        return match (&c.entry, c.target) {
+            (REntry::Str, RTarget::GardeMap) => {
+                let s = c.doc.as_str()?;
+                guard(|| serde_saphyr::from_str_with_options_valid::<GardeMapDoc>(s, opts).map(|_| ())).ok()
+            }
+            (REntry::Str, _) => {
+                let s = c.doc.as_str()?;
+                guard(|| serde_saphyr::from_str_with_options_validate::<ValidatorListDoc>(s, opts).map(|_| ())).ok()
+            }
+            (REntry::Reader { chunking, faults }, t) => {
+                let rd = SimReader::new(
+                    &c.doc.0,
+                    ReaderScript {
+                        chunking: Some(chunking.clone()),
+                        faults: faults.clone(),
+                        ..Default::default()
+                    },
+                );
+                LAST_READER.with(|l| *l.borrow_mut() = Some(rd.clone()));
+                if t == RTarget::GardeMap {
+                    guard(|| serde_saphyr::from_reader_with_options_valid::<_, GardeMapDoc>(rd, opts).map(|_| ())).ok()
+                } else {
+                    guard(|| serde_saphyr::from_reader_with_options_validate::<_, ValidatorListDoc>(rd, opts).map(|_| ())).ok()
+                }
+            }
+        };
+    }
     match c.target {
+        RTarget::GardeMap | RTarget::ValidatorList => unreachable!(),
         RTarget::MapVec => go!(BTreeMap<String, Vec<i32>>),
         RTarget::MapInt => go!(BTreeMap<String, i32>),
         RTarget::Strict => go!(Strict),
@@ -215,7 +282,18 @@ pub fn exec(c: &RenderCase, st: &mut Stats) -> Vec<Viol> {
     for (name, p) in &rendered.panics {
         out.push(mk("render-panics", format!("{name}: {p}")));
     }
-    let text_owned = c.doc.lossy();
+    // What the library was given: for a reader that failed for good, only the bytes before the fault.
+    let delivered: Vec<u8> = LAST_READER.with(|l| {
+        let l = l.borrow();
+        match l.as_ref() {
+            Some(rd) => {
+                let st = rd.st.borrow();
+                if st.sticky.is_some() || st.forced_eof { c.doc.0[..st.pos.min(c.doc.0.len())].to_vec() } else { c.doc.0.clone() }
+            }
+            None => c.doc.0.clone(),
+        }
+    });
+    let text_owned = String::from_utf8_lossy(&delivered).into_owned();
     // the renderer ignores one leading BOM
     let text = text_owned.strip_prefix('\u{feff}').unwrap_or(&text_owned);
     let orig_lines: Vec<&str> = text.split('\n').map(|l| l.strip_suffix('\r').unwrap_or(l)).collect();
@@ -229,8 +307,10 @@ pub fn exec(c: &RenderCase, st: &mut Stats) -> Vec<Viol> {
     }
     {
         let mut d = 0xcbf2_9ce4_8422_2325u64;
-        for (_, t) in &texts {
-            d = crate::rng::fnv_mix(d, crate::rng::fnv(t.as_bytes()));
+        for (n, t) in &texts {
+            if *n != "debug" {
+                d = crate::rng::fnv_mix(d, crate::rng::fnv(t.as_bytes()));
+            }
         }
         st.behaviours.insert(d);
         st.nontrivial.insert(d);
@@ -242,10 +322,10 @@ pub fn exec(c: &RenderCase, st: &mut Stats) -> Vec<Viol> {
         }
     }
     for (name, t) in &texts {
-        st.note(t);
         if *name == "debug" {
-            continue; // {:?} is not a report
+            continue; // {:?} is not a report (and prints hash maps in their random order)
         }
+        st.note(t);
         // 1. terminal safety
         if let Some(bad) = t.chars().find(|c| is_bad_char(*c)) {
             out.push(mk(
@@ -357,6 +437,11 @@ pub fn exec(c: &RenderCase, st: &mut Stats) -> Vec<Viol> {
                 }
                 if *n == info.line {
                     marked_any = true;
+                    // a validation error renders one block per issue; only the first one belongs to
+                    // the reported location, so the character comparison is not applied to them
+                    if info.kind.starts_with("Validat") {
+                        continue;
+                    }
                     let Some(orig) = orig_lines.get((*n as usize).wrapping_sub(1)) else { continue };
                     let ocs: Vec<char> = orig.chars().collect();
                     let want = ocs.get((info.col as usize).wrapping_sub(1)).copied();
@@ -470,7 +555,33 @@ const NASTY_ESCAPED: &[&str] = &[
 
 const SUFFIX: &[&str] = &["", "", "", "é", "日本", "😀", "_long_key_name_here"];
 
+fn gen_validation_doc(rng: &mut Rng, target: RTarget) -> String {
+    let n = rng.range(1, 6);
+    let bad = rng.below(n);
+    let mut s = String::new();
+    if target == RTarget::GardeMap {
+        s.push_str("m:\n");
+        for i in 0..n {
+            let key = if rng.chance(1, 2) { format!("\"key{i}{}\"", rng.pick(NASTY_ESCAPED)) } else { format!("key{i}{}", rng.pick(SUFFIX)) };
+            let nval = if i == bad || rng.chance(1, 4) { 50 } else { 5 };
+            let sval = if rng.chance(1, 3) { format!("\"toolong{}\"", rng.pick(NASTY_ESCAPED)) } else { "ok".to_string() };
+            s.push_str(&format!("  {key}: {{n: {nval}, s: {sval}}}\n"));
+        }
+    } else {
+        s.push_str("items:\n");
+        for i in 0..n {
+            let nval = if i == bad || rng.chance(1, 4) { 50 } else { 5 };
+            let sval = if rng.chance(1, 3) { format!("\"toolong{}\"", rng.pick(NASTY_ESCAPED)) } else { "ok".to_string() };
+            s.push_str(&format!("  - {{n: {nval}, s: {sval}}}\n"));
+        }
+    }
+    s
+}
+
 fn gen_doc(rng: &mut Rng, target: RTarget) -> String {
+    if matches!(target, RTarget::GardeMap | RTarget::ValidatorList) {
+        return gen_validation_doc(rng, target);
+    }
     let crlf = rng.chance(1, 5);
     let eol = if crlf { "\r\n" } else { "\n" };
     let n = match rng.below(10) {
@@ -541,6 +652,7 @@ fn gen_doc(rng: &mut Rng, target: RTarget) -> String {
                     s.push_str(&format!("{key}: {}{eol}", rng.pick(&["Alpha", "Beta"])));
                 }
             }
+            RTarget::GardeMap | RTarget::ValidatorList => unreachable!(),
             RTarget::Json => {
                 if is_bad {
                     let v = match rng.below(6) {
@@ -590,7 +702,18 @@ pub fn gen_case(tier: Tier, seed: u64, idx: u64) -> Case {
     let member = idx % 10;
     let _ = tier;
     let mut drng = Rng::for_case(seed, "C17doc", group);
-    let target = *drng.pick(&[RTarget::MapVec, RTarget::MapVec, RTarget::MapInt, RTarget::Strict, RTarget::MapEnum, RTarget::Json]);
+    let target = *drng.pick(&[
+        RTarget::MapVec,
+        RTarget::MapVec,
+        RTarget::MapInt,
+        RTarget::Strict,
+        RTarget::MapEnum,
+        RTarget::Json,
+        RTarget::MapVec,
+        RTarget::MapInt,
+        RTarget::GardeMap,
+        RTarget::ValidatorList,
+    ]);
     let doc = gen_doc(&mut drng, target);
     let mut rng = Rng::for_case(seed, "C17", idx);
     let radius = if member < 5 { RADII[member as usize] } else { *rng.pick(&RADII) };
